@@ -9,7 +9,7 @@ use crate::ops::*;
 use crate::sexp::S;
 use biodivine_lib_bdd::*;
 
-fn d_set(x: &S) -> BddVariableSet {
+pub fn d_set(x: &S) -> BddVariableSet {
     let it = x.as_list();
     match it[0].as_atom() {
         "new" => {
